@@ -10,9 +10,9 @@
   input); running out of fuel is the explicit error `Err.fuel`, never a default.
 
   Below the modelled interface: `bufio` (the model sees the byte sequence), `strconv` (own decimal
-  functions, tied on every run), `strings.EqualFold/ToLower` on ASCII, `unicode.IsControl` on
-  single bytes.  Flags containing bytes ≥ 0x80 go through Go's Unicode `strings.ToLower`; the
-  driver answers `unmodelled` for them.
+  functions, tied on every run), `strings.EqualFold` on ASCII, `unicode.IsControl` on single bytes.
+  Flags are lower-cased in ASCII only (after the repair of the Unicode `strings.ToLower` lookup, kept
+  as `Legacy.canonicalFlag`), so flags with bytes ≥ 0x80 are modelled like any other.
 -/
 import GoImap.Util
 import GoImap.Model.NumSet
@@ -464,6 +464,24 @@ def canonIn (table : List Bytes) (s : Bytes) : Bytes :=
 /-- internal.go canonicalFlag / canonicalMailboxAttr -/
 def canonicalFlag (s : Bytes) : Bytes := canonIn wellKnownFlags s
 def canonicalMailboxAttr (s : Bytes) : Bytes := canonIn wellKnownAttrs s
+
+/-- the lookup key as shipped: `strings.ToLower`, whose Unicode mapping turns U+0130 (bytes C4 B0)
+    into "i" and U+212A (E2 84 AA) into "k" — the only non-ASCII characters that lower-case into
+    ASCII; anything else non-ASCII stays non-ASCII and cannot match a key -/
+def Legacy.lowerGo : Bytes → Bytes
+  | 196 :: 176 :: r => 105 :: Legacy.lowerGo r
+  | 226 :: 132 :: 170 :: r => 107 :: Legacy.lowerGo r
+  | c :: r => toLowerAscii c :: Legacy.lowerGo r
+  | [] => []
+
+/-- canonicalFlag / canonicalMailboxAttr as shipped -/
+def Legacy.canonIn (table : List Bytes) (s : Bytes) : Bytes :=
+  match table.find? fun t => lowerAscii t = Legacy.lowerGo s with
+  | some t => t
+  | none => s
+
+def Legacy.canonicalFlag (s : Bytes) : Bytes := Legacy.canonIn wellKnownFlags s
+def Legacy.canonicalMailboxAttr (s : Bytes) : Bytes := Legacy.canonIn wellKnownAttrs s
 
 /-- internal.go ExpectFlag: (err == nil, flag, state) -/
 def expectFlag (s : St) : Bool × Bytes × St :=
